@@ -139,7 +139,19 @@ def _join_shard(arg):
                 _combine_case(st, label, ops, combine, errs, tag="falsy-value")
         # ---- triples: permutations x bracketings agree
         tri = drops[:n_triple]
-        for trio in itertools.combinations(tri, 3):
+        # three copies that each ADD an atom of their own to the global map (an unknown key type, and a fourth with
+        # a global xpub-like unknown): in a triple of drop-copies every atom is still held by two operands, so a merge
+        # that skips the middle operand's global fields is only visible when the middle operand alone holds something
+        adds = []
+        for j in range(3):
+            ma = [list(x) for x in maps]
+            ma[0].append((bytes([0xF0 + j, 0x51 + j]), bytes([j + 1]) * (j + 1)))
+            try:
+                adds.append((("add", 0, ma[0][-1][0].hex()), Psbt.parse(M.write_maps(ma))))
+            except errs:
+                break
+        trios = list(itertools.combinations(tri, 3)) + ([tuple(adds)] if len(adds) == 3 else [])
+        for trio in trios:
             results = set()
             union = None
             for perm in itertools.permutations(trio):
